@@ -13,7 +13,7 @@ use simple_sds::serialize::{self, Serialize as SdsSerialize};
 
 use crate::content::Content;
 use crate::core::{catch, Outcome, Stats, Violation};
-use crate::payload::{build_bv, gen_large_payload, gen_payload, DynVal, Family, GenCfg, Leaf, Payload, Probe};
+use crate::payload::{build_bv, gen_large_payload, gen_long_superblock_payload, gen_payload, DynVal, Family, GenCfg, Leaf, Payload, Probe};
 use crate::rng::Rng;
 use crate::simfs::{FsPlan, FsSession};
 use crate::simio::{is_injected, Chunk, Kind, ReadFault, ReadPlan, SimReader, SimWriter, WriteFault, WritePlan, READ_KINDS, WRITE_KINDS};
@@ -51,7 +51,8 @@ impl RoundTrip {
     pub fn generate(rng: &mut Rng, max_len: usize) -> RoundTrip {
         let cfg = GenCfg::swarm(rng, Family::All, max_len);
         let n = match rng.below(8) { 0 | 1 => 1, 2 | 3 => 2, 4 => 3, 5 => 4, 6 => 5, _ => 6 };
-        let payloads: Vec<Payload> = (0..n).map(|_| gen_payload(rng, &cfg)).collect();
+        let mut payloads: Vec<Payload> = (0..n).map(|_| gen_payload(rng, &cfg)).collect();
+        if rng.chance(1, 120) { let at = rng.below_usize(payloads.len() + 1); payloads.insert(at, gen_long_superblock_payload(rng)); }
         let w = if rng.chance(1, 6) { WritePlan::plain() } else { WritePlan::generate(rng, 64) };
         let r = if rng.chance(1, 6) { ReadPlan::plain() } else { ReadPlan::generate(rng, 64) };
         let via_fs = if rng.chance(1, 5) { Some(FsPlan::generate(rng, 32)) } else { None };
@@ -382,7 +383,8 @@ impl StreamFault {
             Err(p) => return out.fail(Violation::new(prop, "harness", "serialize", p)),
         };
         let n = bytes.len();
-        let ks: Vec<usize> = match self.points { Points::All => (0..n).collect(), Points::One(k) => if k < n { vec![k] } else { vec![] }, Points::Sample => sample_points_of(n) };
+        // Enumeration is quadratic in the size: beyond 8 KiB fall back to the boundary-directed sample.
+        let ks: Vec<usize> = match self.points { Points::All if n > 8192 => sample_points_of(n), Points::All => (0..n).collect(), Points::One(k) => if k < n { vec![k] } else { vec![] }, Points::Sample => sample_points_of(n) };
         for k in ks {
             if let Some(v) = self.one(prop, val.as_ref(), &bytes, k, &mut out.stats) {
                 let mut v = v;
@@ -398,7 +400,7 @@ impl StreamFault {
         let val = catch(|| self.payload.build()).ok()?;
         let bytes = catch(|| val.serialize_vec()).ok()?.ok()?;
         let mut stats = Stats::default();
-        let ks: Vec<usize> = if self.points == Points::Sample { sample_points_of(bytes.len()) } else { (0..bytes.len()).collect() };
+        let ks: Vec<usize> = if self.points == Points::Sample || bytes.len() > 8192 { sample_points_of(bytes.len()) } else { (0..bytes.len()).collect() };
         ks.into_iter().find(|k| self.one(prop, val.as_ref(), &bytes, *k, &mut stats).is_some())
     }
 
@@ -987,6 +989,7 @@ impl FileFault {
     fn points(&self, val: &dyn DynVal, bytes: &[u8]) -> Vec<u64> {
         if let Some(k) = self.point { return vec![k]; }
         match self.clause {
+            FileClause::ToFull | FileClause::FromTrunc | FileClause::FromErr if bytes.len() > 8192 => sample_points_of(bytes.len()).into_iter().map(|k| k as u64).collect(),
             FileClause::ToFull | FileClause::FromTrunc | FileClause::FromErr => (0..bytes.len() as u64).collect(),
             FileClause::Open => vec![0, 1],
             FileClause::ToWriteOnce | FileClause::ToWriteFrom => {
